@@ -89,7 +89,7 @@ Proof.
   - right. split; [done|]. left.
     destruct (bool_eq ok (bool_decide (svc b = Stopped))); [|done]. inversion Hb; subst.
     destruct ok; done.
-  - right. split; [done|]. left. destruct (svc b); try done. destruct n; [done|].
+  - right. split; [done|]. left. destruct (svc b); try done. destruct (wq b); [done|]. destruct n; [done|].
     inversion Hb; subst. done.
   - right. split; [done|]. left. destruct (svc b); try done. destruct (wq b); [|done].
     inversion Hb; subst. done.
